@@ -180,7 +180,24 @@ func execC20(x *Ctx, sc *wire.Scenario) *wire.Result {
 		kinds = append(kinds, k)
 	}
 	sort.Strings(kinds)
+	// One disturbance, arriving while Readline waits for input, is the case the tree handles: there a
+	// failure is named in full (which tasks are blocked, on what). With several disturbances, or one
+	// that lands inside the processing of a key, the library's unsynchronised redisplays and cursor
+	// position queries fail in many ways that are one defect: the name keeps the failure class,
+	// the window and the kinds of disturbance, not how many ran nor which task blocked where.
+	fine := fired == 1 && window == "while-waiting-for-input"
+	if !fine {
+		for i := range kinds {
+			kinds[i] = strings.TrimSuffix(kinds[i], "*")
+		}
+	}
 	window += "|" + strings.Join(kinds, "+")
+	dsig := func(blocked string) string {
+		if fine {
+			return ":" + deadlockSig(blocked)
+		}
+		return ""
+	}
 	// (1) no panic
 	if out.End == "PANIC" {
 		return violation(res, "PANIC", "C20.no-panic", panicSig(out.Panic, out.PanicStack)+":"+window,
@@ -189,13 +206,13 @@ func execC20(x *Ctx, sc *wire.Scenario) *wire.Result {
 	// (2) no deadlock, no task left stuck
 	switch out.End {
 	case "DEADLOCK":
-		return violation(res, "DEADLOCK", "C20.no-deadlock", "deadlock:"+deadlockSig(out.Blocked)+"|"+window,
+		return violation(res, "DEADLOCK", "C20.no-deadlock", "deadlock"+dsig(out.Blocked)+"|"+window,
 			fmt.Sprintf("disturbances %v: no event enabled and Readline neither returned nor is parked in a terminal read: %s", firedList, out.Blocked))
 	case "LIVELOCK", "BUDGET":
-		return violation(res, "LIVELOCK", "C20.no-livelock", "livelock:"+deadlockSig(out.EndDetail)+"|"+window,
+		return violation(res, "LIVELOCK", "C20.no-livelock", "livelock"+dsig(out.EndDetail)+"|"+window,
 			fmt.Sprintf("disturbances %v: no input progress: %s", firedList, out.EndDetail))
 	case "WAITING":
-		return violation(res, "DEADLOCK", "C20.returns-like-undisturbed", "stuck-waiting:"+out.EndDetail+"|"+window,
+		return violation(res, "DEADLOCK", "C20.returns-like-undisturbed", "stuck-waiting"+map[bool]string{true: ":" + out.EndDetail, false: ""}[fine]+"|"+window,
 			fmt.Sprintf("disturbances %v: the whole script was typed but Readline is still waiting in a %s read (keys were swallowed); undisturbed run returned %+v; buffer %q",
 				firedList, out.EndDetail, ref.Returns[0], out.FinalSnap.Line))
 	}
@@ -229,7 +246,11 @@ func execC20(x *Ctx, sc *wire.Scenario) *wire.Result {
 				if r0, _, _ := judgeFrame(refW); r0 == "ok" {
 					rule, sig, msg := judgeFrame(lastW)
 					if rule != "ok" && rule != "" && rule != "unjudged" {
-						return violation(res, "LAYOUT", "C20.screen-consistent-after-redisplay", "screen:"+strings.TrimPrefix(sig, "layout:")+"|"+window,
+						ssig := "screen"
+						if fine {
+							ssig = "screen:" + strings.TrimPrefix(sig, "layout:")
+						}
+						return violation(res, "LAYOUT", "C20.screen-consistent-after-redisplay", ssig+"|"+window,
 							fmt.Sprintf("disturbances %v: at the input wait after %d keys the screen is inconsistent (the undisturbed run paints this frame correctly): %s", firedList, lastW.Tokens, msg))
 					}
 					res.Counters["frames_judged"]++
